@@ -126,6 +126,8 @@ static void run_cmd(const sim::Cmd &c, sim::Out &out)
   int units_read = 0;
   bool ended = false;
   bool primary_nested = false;
+  bool resolve_unchanged = false; // the negative answer came from re-solving an unchanged problem (see KF-P5)
+  int last_solved_unit = -1;
   int verdict = -1; // of the whole history: 1 = every solve() succeeded, 0 = a negative answer, -1 = none (discarded, violation)
   std::string verdict_how;
   auto negative = [&](const std::string &how)
@@ -224,9 +226,17 @@ static void run_cmd(const sim::Cmd &c, sim::Out &out)
     log.ev(std::string("solve -> ") + (r ? "true" : "false"));
     if (!r)
     {
+      if (last_solved_unit >= 0)
+      {
+        resolve_unchanged = true;
+        for (size_t v = static_cast<size_t>(last_solved_unit) + 1; v <= u; ++v)
+          if (b.units[v].find_first_not_of(" \t\r\n") != std::string::npos)
+            resolve_unchanged = false;
+      }
       negative("solve() == false");
       break;
     }
+    last_solved_unit = static_cast<int>(u);
     cnt.inc("solutions");
     {
       std::ostringstream os; // the textual dump must not crash either
@@ -269,9 +279,11 @@ static void run_cmd(const sim::Cmd &c, sim::Out &out)
   // tautology added. A verdict only counts when the search ended; a positive one only when the solution checks.
   if ((prop == "C02" || c.num("variants", 0)) && status == "OK" && viols.empty() && verdict >= 0 && c.num("variants", 1) != 0)
   {
-    for (int k = 0; k < 2 && viols.empty(); ++k)
+    for (int k = 0; k < 3 && viols.empty(); ++k)
     {
-      const std::string text = b.variant(seed * 31 + static_cast<uint64_t>(k), k == 1);
+      const std::string text = k < 2 ? b.variant(seed * 31 + static_cast<uint64_t>(k), k == 1) : b.variant_with_dead_disjunct();
+      if (text.empty())
+        continue;
       ratio::solver *s2 = new ratio::solver();
       Listener *l2 = new Listener(*s2);
       int v2 = -1;
@@ -321,7 +333,7 @@ static void run_cmd(const sim::Cmd &c, sim::Out &out)
         continue;
       }
       const std::string whole = one_line(text).substr(0, 500);
-      const std::string how_variant = std::string("read as one unit with its independent constraints reordered") + (k == 1 ? " and a tautology added" : "");
+      const std::string how_variant = k == 2 ? std::string("read as one unit with one more, unachievable disjunct in every disjunction") : std::string("read as one unit with its independent constraints reordered") + (k == 1 ? " and a tautology added" : "");
       std::string msg;
       if (verdict == 0)
         msg = "the planner answered '" + verdict_how + "' but the same problem, " + how_variant + ", is solved and that solution checks | problem: " + whole;
@@ -329,6 +341,8 @@ static void run_cmd(const sim::Cmd &c, sim::Out &out)
         msg = "the problem was solved (and the solution checks) but the same problem, " + how_variant + ", is answered '" + how2 + "' | problem: " + whole;
       if (witness_nested)
         msg = "[the witness places a zero-length atom strictly inside another atom of the same state variable] " + msg;
+      if (verdict == 0 && resolve_unchanged)
+        msg = "[solve() answered false when it was called again, after a successful solve() and a return to root level, on a problem nothing had been added to] " + msg;
       PViolation v{"P7", "P7.equivalent_formulations_differ", msg};
       (enabled_for(prop, v) ? viols : others).push_back(v);
     }
